@@ -145,3 +145,67 @@ Section Req.
       ~ within_max cfg (N.of_nat (length l + 2 + length (header_block fs)) + n) ->
       request_defect cfg (l ++ CRLF ++ rest) EMessageTooLong.
 End Req.
+
+(* ---- chunked bodies ---- *)
+From Http Require Import Model.Chunked Model.Response Spec.ResponseGrammar.
+
+(* well-formed chunks, then the first offending element: a chunk-size line that is not text or
+   has no valid size, a chunk not followed by CRLF, a defective trailer block *)
+Inductive chunked_defect : bytes -> err -> Prop :=
+| KD_size_text l rest :
+    is_line l -> utf8_valid l = false ->
+    chunked_defect (l ++ CRLF ++ rest) EChunkSizeLineNotValidText
+| KD_size l rest :
+    is_line l -> utf8_valid l = true -> parse_hex (size_field l) = None ->
+    chunked_defect (l ++ CRLF ++ rest) EInvalidChunkSize
+| KD_terminator1 l n data a :
+    size_line l n -> n <> 0%N -> length data = N.to_nat n -> a <> CR ->
+    chunked_defect (l ++ CRLF ++ data ++ [a]) EInvalidChunkTerminator
+| KD_terminator2 l n data a b rest :
+    size_line l n -> n <> 0%N -> length data = N.to_nat n -> ~ (a = CR /\ b = LF) ->
+    chunked_defect (l ++ CRLF ++ data ++ a :: b :: rest) EInvalidChunkTerminator
+| KD_trailer l block e :
+    size_line l 0 -> block_defect None block e ->
+    chunked_defect (l ++ CRLF ++ block) (ETrailer e)
+| KD_later l n data rest e :
+    size_line l n -> n <> 0%N -> length data = N.to_nat n -> chunked_defect rest e ->
+    chunked_defect (l ++ CRLF ++ data ++ CRLF ++ rest) e.
+
+(* ---- responses ---- *)
+Inductive sshape_defect : bytes -> err -> Prop :=
+| SS_no_protocol_delimiter l :
+    find_byte SP l = None -> sshape_defect l EStatusLineNoProtocolDelimiter
+| SS_protocol p r :
+    find_byte SP p = None -> p <> HTTP11 -> sshape_defect (p ++ SP :: r) EStatusLineProtocol
+| SS_no_code_delimiter r :
+    find_byte SP r = None -> sshape_defect (HTTP11 ++ SP :: r) EStatusLineNoStatusCodeDelimiter
+| SS_invalid_code c r :
+    find_byte SP c = None -> parse_dec c = None ->
+    sshape_defect (HTTP11 ++ SP :: c ++ SP :: r) EInvalidStatusCode
+| SS_code_range c r n :
+    find_byte SP c = None -> parse_dec c = Some n -> (1000 <= n)%N ->
+    sshape_defect (HTTP11 ++ SP :: c ++ SP :: r) EStatusCodeOutOfRange.
+
+Definition sline_good (l : bytes) (code : N) (reason : bytes) : Prop :=
+  exists codetext, l = status_line codetext reason /\ status_line_ok codetext reason code.
+
+Inductive response_defect : bytes -> err -> Prop :=
+| SD_line_text l rest :
+    is_line l -> utf8_valid l = false ->
+    response_defect (l ++ CRLF ++ rest) EStatusLineNotValidText
+| SD_line_shape l rest e :
+    is_line l -> utf8_valid l = true -> sshape_defect l e ->
+    response_defect (l ++ CRLF ++ rest) e
+| SD_headers l rest code reason e :
+    sline_good l code reason -> block_defect None rest e ->
+    response_defect (l ++ CRLF ++ rest) (EHeaders e)
+| SD_content_length l rest code reason fs v :
+    sline_good l code reason -> block_complete None rest fs ->
+    header_value (map field_header fs) CONTENT_LENGTH = Some v -> parse_dec v = None ->
+    response_defect (l ++ CRLF ++ rest) EInvalidContentLength
+| SD_chunked l code reason fs wire e :
+    sline_good l code reason -> block_ok None fs ->
+    header_value (map field_header fs) CONTENT_LENGTH = None ->
+    has_header_token (map field_header fs) TRANSFER_ENCODING CHUNKED = true ->
+    chunked_defect wire e ->
+    response_defect (l ++ CRLF ++ header_block fs ++ wire) e.
